@@ -109,9 +109,12 @@ Definition name_head_ok (x : list ascii) : bool :=
               && negb (Ascii.eqb c "."%char && match t with [] => true | d :: _ => is_digit d end)
   end.
 
-(* the last byte of a name must survive strings.TrimSpace *)
+(* the END of a name must survive strings.TrimSpace: the name does not end with a white-space character -
+   one of the six ASCII ones or the UTF-8 encoding of U+0085, U+00A0, U+1680, U+2000..U+200A, U+2028, U+2029,
+   U+202F, U+205F, U+3000 (Base/Str.v head_sp usp2r usp3r reads the reversed name; a count precedes every
+   name, and a digit is no part of such an encoding, so the name alone decides: TrimSpaceU.head_spr_digit) *)
 Definition name_last_ok (x : list ascii) : bool :=
-  match rev x with [] => false | c :: _ => negb (is_trim_space c) end.
+  match rev x with [] => false | _ :: _ => negb (head_sp usp2r usp3r (rev x)) end.
 
 (* x is a proper prefix of y and y continues with a digit or a space: then x followed by the next
    token (or by optional spaces) can be confused with y *)
@@ -315,18 +318,27 @@ Proof.
     exists q, c, nm, ps', ocs'. repeat split; auto. right. exact I.
 Qed.
 
-(* the last name printed *)
+Lemma all_digits_last : forall l, l <> [] -> all_digits l = true -> exists l' d, l = l' ++ [d] /\ is_digit d = true.
+Proof.
+  intros l N F. destruct (exists_last N) as (l' & d & E). subst l. rewrite all_digits_app in F.
+  apply andb_prop in F. destruct F as [_ F]. cbn [all_digits] in F. apply andb_prop in F. destruct F as [D _].
+  exists l', d. split; [reflexivity | exact D].
+Qed.
+
+(* the last name printed, and the digit (the end of its count) right in front of it *)
 Lemma render_last : forall ps ocs, Forall2 oc_valid ps ocs -> render ocs <> [] ->
-  exists p nm pre, In p ps /\ In nm (pnames p) /\ nm <> ""%string /\ render ocs = pre ++ chars nm.
+  exists p nm pre dg, In p ps /\ In nm (pnames p) /\ nm <> ""%string /\ is_digit dg = true
+    /\ render ocs = pre ++ dg :: chars nm.
 Proof.
   intros ps ocs F. induction F as [|p oc ps ocs V F IH]; intro N; [cbn in N; congruence|].
   destruct oc as [[c nm]|].
   - destruct V as (Hc & Hi & Hn). cbn [render]. destruct (render ocs) as [|a r] eqn:Er.
-    + exists p, nm, (nat_digits c). rewrite app_nil_r. repeat split; auto. left. reflexivity.
-    + destruct (IH ltac:(discriminate)) as (q & nm' & pre & I & Hi' & Hn' & E).
-      exists q, nm', (nat_digits c ++ chars nm ++ pre). rewrite E, <- !app_assoc. repeat split; auto. right. exact I.
-  - cbn [render] in N |- *. destruct (IH N) as (q & nm' & pre & I & Hi' & Hn' & E).
-    exists q, nm', pre. repeat split; auto. right. exact I.
+    + destruct (nat_digits_spec c Hc) as (Nd & Fd & _). destruct (all_digits_last _ Nd Fd) as (ds' & dg & Ed & Hdg).
+      exists p, nm, ds', dg. rewrite app_nil_r, Ed, <- app_assoc. repeat split; auto. left. reflexivity.
+    + destruct (IH ltac:(discriminate)) as (q & nm' & pre & dg & I & Hi' & Hn' & Hdg & E).
+      exists q, nm', (nat_digits c ++ chars nm ++ pre), dg. rewrite E, <- !app_assoc. repeat split; auto. right. exact I.
+  - cbn [render] in N |- *. destruct (IH N) as (q & nm' & pre & dg & I & Hi' & Hn' & Hdg & E).
+    exists q, nm', pre, dg. repeat split; auto. right. exact I.
 Qed.
 
 (* EXISTENCE: the rendering has the canonical tokenisation (no spaces anywhere) *)
